@@ -41,6 +41,10 @@ func profileByName(name string) Profile {
 		p.PDigErr, p.POptional, p.PCbPanic = 0.25, 0.35, 0.15
 		p.PGap, p.PBackEdge, p.PInvalid = 0.03, 0.03, 0.02
 		p.Invokes = [2]int{4, 10}
+	case "faultsgroups":
+		p.PFault, p.InvokeFaults, p.PGroupRes, p.PGroupPar, p.PFlatten = 0.3, true, 0.5, 0.5, 0.4
+		p.PSoft, p.PRecover, p.MaxScopes, p.PExport, p.PGap, p.PInvalid = 0.1, 0.4, 4, 0.25, 0.03, 0.02
+		p.Invokes = [2]int{4, 10}
 	case "reentrant":
 		p.PReenter, p.PDecorate, p.PFault, p.PInvalid, p.PGap = 0.4, 0.5, 0.1, 0.02, 0.05
 		p.MaxScopes = 3
@@ -139,7 +143,8 @@ func jobsFor(prop, tier string) []JobSpec {
 	case "C09":
 		return []JobSpec{{"hist:keys", n(50000, 2500000)}}
 	case "C10":
-		return []JobSpec{{"hist:groups", n(50000, 2500000)}}
+		// hist:faultsgroups: feeders and their dependencies fail (errors, recovered and unrecovered panics) and are retried
+		return []JobSpec{{"hist:groups", n(50000, 2500000)}, {"hist:faultsgroups", n(15000, 700000)}}
 	case "C11":
 		return []JobSpec{{"hist:soft", n(50000, 2500000)}}
 	case "C12":
